@@ -427,7 +427,12 @@ func runC14(c *Cfg) {
 		}
 		if i%64 == 21 {
 			cs = genStoreCase(c, i, 60)
-			cs.Family, cs.Prefill = "large-store", []int{1000, 1025, 2048, 5000}[(i/64)%4]
+			cs.Family, cs.Prefill = "large-store", []int{1000, 1025, 2048, 5000, 513, 600}[(i/64)%6]
+			if (i/64)%2 == 0 {
+				// a large store is cleared and a snapshot taken (and written into) before anything is stored again
+				head := []StoreStep{{Op: "clear"}, {Op: "getall"}, {Op: "snap-set", Key: 1, Val: 3, Arg: []int{0, 1}}, {Op: "keys"}, {Op: "set", Key: 2, Val: 5}, {Op: "getall"}}
+				cs.Steps = append(head, cs.Steps...)
+			}
 			r.Count("large_store.sequences", 1)
 		}
 		if stuckSeen.Load() {
